@@ -343,6 +343,7 @@ def load(patches=None, stub_embed=True):
 # state carried between calls WITHIN a path is exactly what the multi-step harnesses look for.
 
 _STATE = []
+_CACHED_FUNCS = []
 
 
 def snapshot_state():
@@ -350,6 +351,7 @@ def snapshot_state():
     import inspect
 
     _STATE.clear()
+    del _CACHED_FUNCS[:]
     simple = (type(None), bool, int, float, str)
     for mname, m in list(sys.modules.items()):
         if not (mname == PKG or mname.startswith(PKG + ".")) or m is None:
@@ -357,6 +359,8 @@ def snapshot_state():
         owners = [m] + [v for v in vars(m).values() if inspect.isclass(v) and getattr(v, "__module__", None) == mname]
         for owner in owners:
             for name, val in list(vars(owner).items()):
+                if type(val).__name__ == "_lru_cache_wrapper":
+                    _CACHED_FUNCS.append(val)  # functools.lru_cache / cache: emptied before every path
                 if name.startswith("__") or name.startswith("_sx_"):
                     continue
                 if isinstance(val, (dict, list, set)) or (owner is m and isinstance(val, simple) and not name.isupper()):
@@ -368,6 +372,12 @@ def snapshot_state():
 
 def restore_state():
     import copy
+
+    for f in _CACHED_FUNCS:
+        try:
+            f.cache_clear()
+        except Exception:
+            pass
 
     for owner, name, val in _STATE:
         try:
